@@ -29,11 +29,14 @@ pub struct Case {
     /// issuance only: the issuer has published this many more bases than there are attributes
     #[serde(default)]
     pub spare: u8,
+    /// all hidden attributes carry the same (random 256-bit) value
+    #[serde(default)]
+    pub eq_hidden: bool,
 }
 
 pub fn strat(nmax: usize) -> impl Strategy<Value = Case> {
     (any::<u16>(), 1usize..=nmax, 1u8..=31, 0u8..3, any::<u32>(), prop::sample::select(vec![0u8, 0, 1, 2, 3]))
-        .prop_map(|(key, n, hm, kind, seed, spare)| Case { key, n, hidden_mask: (hm as usize % ((1 << n) - 1)) as u8 + 1, kind, seed, small_mask: 0, hidden_list: vec![], spare })
+        .prop_map(|(key, n, hm, kind, seed, spare)| Case { key, n, hidden_mask: (hm as usize % ((1 << n) - 1)) as u8 + 1, kind, seed, small_mask: 0, hidden_list: vec![], spare, eq_hidden: false })
 }
 
 /// public base pair (g, h) modulo n, with a label
@@ -86,6 +89,13 @@ where
     let mut st = (c.seed as u64) << 9 | 1;
     // high-entropy attributes only
     let vals: Vec<Integer> = (0..n).map(|i| if i < 8 && c.small_mask >> i & 1 == 1 { Integer::from((i + (c.seed as usize)) % 2) } else { attr_random(&mut st) }).collect();
+    let mut vals = vals;
+    if c.eq_hidden && hidden.len() >= 2 {
+        let first = vals[hidden[0]].clone();
+        for &i in &hidden[1..] {
+            vals[i] = first.clone();
+        }
+    }
     let hidden_vals: Vec<(usize, Integer)> = hidden.iter().map(|&i| (i, vals[i].clone())).collect();
     let kind = if c.kind % 3 == 1 && sh.tp.is_none() { 0 } else { c.kind % 3 };
     if kind < 2 && !hidden.is_empty() {
@@ -455,6 +465,32 @@ pub fn check_view(rep: &Report, ck: &str, c: &Case, v: &View) -> CheckResult {
             cj(json!({"field": path})),
         );
     }
+    // (H) two fields with the same value: legitimate only for a commitment that the proof carries twice because the
+    // verifier compares the two copies (.../E, .../commitment/value, .../Ce/value, E_a_1, E_b_1).  Equal responses
+    // (e.g. for two hidden attributes with the same value, or for blinding derived from the value) tell the
+    // recipient that the two secrets are equal
+    {
+        let copy_ok = |p: &str| p.ends_with("/E") || p.ends_with("/value") || p.ends_with("/E_a_1") || p.ends_with("/E_b_1");
+        let mut seen: std::collections::HashMap<Integer, String> = std::collections::HashMap::new();
+        rep.eval(ck, 1);
+        for (p, x) in int_leaves(&v.proof) {
+            if x.significant_bits() < 64 {
+                continue;
+            }
+            if let Some(q) = seen.get(&x) {
+                if !(copy_ok(q) && copy_ok(&p)) {
+                    return rep.fail(
+                        ck,
+                        &format!("equal-fields:{}:{}:{}", v.kind, generic_path(q), generic_path(&p)),
+                        format!("{}: the fields {} and {} carry the same value ({} bits)", v.kind, q, p, x.significant_bits()),
+                        cj(json!({"field_1": q, "field_2": p})),
+                    );
+                }
+            } else {
+                seen.insert(x, p);
+            }
+        }
+    }
     // (D) dictionary attack: true value vs decoy, order decided by the seed; the attacker sees only
     // the proof, the public base pairs and the two candidates
     for (pos, truth) in &v.hidden_vals {
@@ -481,6 +517,78 @@ pub fn check_view(rep: &Report, ck: &str, c: &Case, v: &View) -> CheckResult {
     rep.class(&format!("kind:{}", v.kind));
     rep.class(&format!("n={},|U|={}", v.n_attr, v.hidden.len()));
     rep.sample(ck, json!({"kind": v.kind, "n": v.n_attr, "hidden": v.hidden, "integer_leaves": int_leaves(&v.proof).len(), "base_pairs": v.pairs.len()}));
+    Ok(())
+}
+
+/// Two presentations of the same credential to the same commitment key, generated one after the other on the same
+/// thread: no field may repeat (the recipient could link them), and no difference quotient (s - s') / (c - c') of
+/// the same field over the two challenges may equal a secret of the holder.
+pub fn two_presentations<CS: CLCiphersuite>(rep: &Report, ck: &str, c: &Case, sh: &Shared) -> CheckResult
+where
+    CS::HashAlg: digest::Digest,
+{
+    let key = &sh.keys[pick(c.key, sh.keys.len())];
+    let pk = &key.pk;
+    let n = c.n;
+    let hidden: Vec<usize> = (0..n.min(8)).filter(|i| c.hidden_mask >> i & 1 == 1).collect();
+    let mut st = (c.seed as u64) << 9 | 3;
+    let vals: Vec<Integer> = (0..n).map(|_| attr_random(&mut st)).collect();
+    let cj = |d: Value| json!({"case": c, "hidden": hidden, "detail": d});
+    let h = match c15::honest::<CS>(key, n, &hidden, vals.clone(), false) {
+        Ok(h) => h,
+        Err(e) => return rep.fail(ck, "honest-generation-failed", e, cj(json!(null))),
+    };
+    // second presentation: same signature, same commitment key, other hidden set when there is one
+    let hidden2: Vec<usize> = if c.seed % 2 == 0 || n < 2 { hidden.clone() } else { (0..n).filter(|i| !hidden.contains(i) || *i == hidden[0]).collect() };
+    let p2 = match catch(|| PoKSignature::<CL03<CS>>::proof_gen(h.sig.cl03Signature(), &h.cpk, pk, &h.bases, &h.msgs, &hidden2)) {
+        Ok(p) => p,
+        Err(e) => return rep.fail(ck, "honest-generation-failed", format!("second presentation: {}", e), cj(json!(null))),
+    };
+    let (j1, j2) = (serde_json::to_value(&h.proof).unwrap(), serde_json::to_value(&p2).unwrap());
+    let (l1, l2) = (int_leaves(&j1), int_leaves(&j2));
+    let sj = serde_json::to_value(&h.sig).unwrap();
+    let mut secrets: Vec<(String, Integer)> = vec![("signature exponent e".into(), int_of(&sj["CL03"]["e"]).unwrap()), ("signature component s".into(), int_of(&sj["CL03"]["s"]).unwrap()), ("signature component v".into(), int_of(&sj["CL03"]["v"]).unwrap())];
+    secrets.extend(vals.iter().enumerate().filter(|(i, _)| hidden.contains(i) || hidden2.contains(i)).map(|(i, v)| (format!("hidden attribute m_{}", i), v.clone())));
+    // (i) repeated fields
+    rep.eval(ck, 1);
+    let set1: std::collections::HashMap<&Integer, &String> = l1.iter().filter(|(_, v)| v.significant_bits() >= 64).map(|(p, v)| (v, p)).collect();
+    for (p, v) in &l2 {
+        if let Some(q) = set1.get(v) {
+            return rep.fail(
+                ck,
+                &format!("field-repeats-across-presentations:{}:{}", generic_path(q), generic_path(p)),
+                format!("two presentations of one credential (hidden {:?} and {:?} of {}): {} of the first equals {} of the second - the recipient links them", hidden, hidden2, n, q, p),
+                cj(json!({"first": q, "second": p})),
+            );
+        }
+    }
+    // (ii) difference quotients of the same field over the two stored challenges
+    let ch = |l: &[(String, Integer)]| l.iter().find(|(p, _)| p == "/CL03/spok/challenge").map(|x| x.1.clone());
+    if let (Some(c1), Some(c2)) = (ch(&l1), ch(&l2)) {
+        let dc = (&c1 - &c2).complete();
+        rep.eval(ck, 1);
+        if dc != 0 {
+            let m2: std::collections::HashMap<&String, &Integer> = l2.iter().map(|(p, v)| (p, v)).collect();
+            for (p, v1) in &l1 {
+                let Some(v2) = m2.get(p) else { continue };
+                let ds = (v1 - *v2).complete();
+                if ds == 0 || !ds.is_divisible(&dc) {
+                    continue;
+                }
+                let q = (&ds / &dc).complete();
+                if let Some(sx) = secrets.iter().find(|s| s.1 == q || s.1 == (-&q).complete()) {
+                    return rep.fail(
+                        ck,
+                        &format!("difference-quotient-across-presentations:{}", generic_path(p)),
+                        format!("two presentations of one credential: ({} - its counterpart) / (c - c') equals the {} - the two proofs share their blinding", p, sx.0),
+                        cj(json!({"field": p, "secret": sx.0})),
+                    );
+                }
+            }
+        }
+    }
+    rep.nontrivial(ck, &json!({"two": c}));
+    rep.class("two-presentations-of-one-credential");
     Ok(())
 }
 
@@ -525,25 +633,25 @@ pub fn fixed_cases(ctx: &Ctx, nmax: usize) -> Vec<Case> {
                 if kind == 1 && k % 2 == 0 {
                     continue;
                 }
-                out.push(Case { key: (k * 7919) as u16, n, hidden_mask: mask, kind, seed: (ctx.seed as u32).wrapping_add(k), small_mask: 0, hidden_list: vec![], spare: if kind < 2 { (k % 3) as u8 } else { 0 } });
+                out.push(Case { key: (k * 7919) as u16, n, hidden_mask: mask, kind, seed: (ctx.seed as u32).wrapping_add(k), small_mask: 0, hidden_list: vec![], spare: if kind < 2 { (k % 3) as u8 } else { 0 }, eq_hidden: mask.count_ones() >= 2 && k % 2 == 0 });
             }
         }
     }
     // full disclosure (nothing hidden): e, v and the commitment randomness must still stay hidden
     for n in 1..=3usize {
         k += 1;
-        out.push(Case { key: (k * 7919) as u16, n, hidden_mask: 0, kind: 2, seed: (ctx.seed as u32).wrapping_add(k), small_mask: 0, hidden_list: vec![], spare: 0 });
+        out.push(Case { key: (k * 7919) as u16, n, hidden_mask: 0, kind: 2, seed: (ctx.seed as u32).wrapping_add(k), small_mask: 0, hidden_list: vec![], spare: 0, eq_hidden: false });
     }
     // many attributes, hidden positions beyond 32 and 64
     for (n, hl) in [(34usize, vec![33usize]), (66, vec![64]), (66, vec![2, 65]), (70, vec![0, 31, 32, 63, 64, 69])] {
         k += 1;
-        out.push(Case { key: (k * 7919) as u16, n, hidden_mask: 0, kind: 2, seed: (ctx.seed as u32).wrapping_add(k), small_mask: 0, hidden_list: hl, spare: 0 });
+        out.push(Case { key: (k * 7919) as u16, n, hidden_mask: 0, kind: 2, seed: (ctx.seed as u32).wrapping_add(k), small_mask: 0, hidden_list: hl, spare: 0, eq_hidden: false });
     }
     // larger attribute counts: first / last / alternating positions hidden
     for n in [6usize, 8] {
         for (j, mask) in [1u8, 1 << (n - 1), 0b10100101 & (((1u16 << n) - 1) as u8)].into_iter().enumerate() {
             k += 1;
-            out.push(Case { key: (k * 7919) as u16, n, hidden_mask: mask, kind: [2u8, 0, 2][j], seed: (ctx.seed as u32).wrapping_add(k), small_mask: 0, hidden_list: vec![], spare: 0 });
+            out.push(Case { key: (k * 7919) as u16, n, hidden_mask: mask, kind: [2u8, 0, 2][j], seed: (ctx.seed as u32).wrapping_add(k), small_mask: 0, hidden_list: vec![], spare: 0, eq_hidden: false });
         }
     }
     out
@@ -568,6 +676,9 @@ pub fn run(ctx: &Ctx, rep: &Report) -> Meta {
     };
     par_items(ctx, rep, "every-hidden-set", &fixed, |c| one(rep, "every-hidden-set", c));
     run_cases(ctx, rep, "generated", ctx.tier.pick(24, 300), 20, || strat(nmax.max(4)), |c| one(rep, "generated", c));
+    // two presentations of one credential on one thread
+    let twice: Vec<Case> = fixed.iter().filter(|c| c.kind == 2 && c.hidden_list.is_empty()).step_by(ctx.tier.pick(2, 1)).cloned().collect();
+    par_items(ctx, rep, "two-presentations", &twice, |c| two_presentations::<CL1024Sha256>(rep, "two-presentations", c, &sh));
     // hidden attributes with the values 0 and 1: the programs that need no high-entropy candidate (A, B, C, E, F, G)
     let small: Vec<Case> = fixed
         .iter()
@@ -599,7 +710,7 @@ pub fn run(ctx: &Ctx, rep: &Report) -> Meta {
     Meta {
         rule: "honest issuance proofs (with and without trusted-party commitment) and signature proofs for EVERY non-empty hidden set (n = 1..3 quick / 1..5 thorough) plus generated cases, high-entropy 256-bit attributes only, issuers with 0..3 more bases than attributes; \
                attacker programs over serde_json::to_value(proof) and the public base pairs {(a_i, b), (g_i, h)}: (A) every (value, randomness)-shaped object tested as an opening of every secret the prover holds, \
-               (B) every integer leaf as value against every integer leaf as randomness, (C) recovery of the signature's v as V * g^(-rho) over all leaf pairs, (D) dictionary attack with the true hidden attribute and a decoy in seed-shuffled order, by opening recomputation, by arithmetic relations (a field equal to or a multiple of the candidate) and by difference quotients (s - s')/(c - c') over all response pairs and all pairs of public challenges (shared blinding inside one proof), (G) no field outside the stripped commitment randomness is exactly 0 or 1 (also with hidden attributes forced to 0 / 1: small-attributes), (F, by the witness holder) the blinding part V / M of every group-element field for every message part M in {one attribute, all, hidden, revealed, none} under each base family: two different fields with the same blinding part whose message parts differ in a hidden position, or a blinding part equal to 1; \
+               (B) every integer leaf as value against every integer leaf as randomness, (C) recovery of the signature's v as V * g^(-rho) over all leaf pairs, (D) dictionary attack with the true hidden attribute and a decoy in seed-shuffled order, by opening recomputation, by arithmetic relations (a field equal to or a multiple of the candidate) and by difference quotients (s - s')/(c - c') over all response pairs and all pairs of public challenges (shared blinding inside one proof), two-presentations: two proofs of one credential for the same commitment key generated in sequence on one thread share no field of 64 bits or more and no difference quotient (s - s')/(c - c') of a field over the two challenges equals e, s, v or a hidden attribute; (H) no two fields carry the same value unless both are copies of a commitment the verifier compares (half of the cases with two or more hidden attributes give them all the same value), (G) no field outside the stripped commitment randomness is exactly 0 or 1 (also with hidden attributes forced to 0 / 1: small-attributes), (F, by the witness holder) the blinding part V / M of every group-element field for every message part M in {one attribute, all, hidden, revealed, none} under each base family: two different fields with the same blinding part whose message parts differ in a hidden position, or a blinding part equal to 1; \
                oracle: no program succeeds; positive control: the programs find a planted opening; non-trivial = proof with >= 1 hidden attribute; evaluations = attacker-program runs"
             .into(),
         assumptions: vec!["only the direct recomputation attacks named by the property are decided; subtler leaks are not found".into(), "attributes are random 256-bit values, so an accidental equality has probability < 2^-200".into()],
@@ -609,6 +720,9 @@ pub fn run(ctx: &Ctx, rep: &Report) -> Meta {
 pub fn replay(ctx: &Ctx, rep: &Report, ck: &str, case: &Value) -> CheckResult {
     let c: Case = serde_json::from_value(case["case"].clone()).map_err(|e| Fail { check: ck.into(), site: "replay-parse".into(), msg: e.to_string(), case: case.clone() })?;
     let sh = shared(ctx, c.kind % 3 == 1);
+    if ck == "two-presentations" {
+        return two_presentations::<CL1024Sha256>(rep, ck, &c, &sh);
+    }
     match build_view::<CL1024Sha256>(&c, &sh) {
         Ok(v) => check_view(rep, ck, &c, &v),
         Err(e) => rep.fail(ck, "honest-generation-failed", e, json!({"case": c})),
